@@ -21,7 +21,7 @@ using namespace PL;
 #define CONV_OPS3 "IF_MUST3", "OPT_MUST3", "STAR_MUST3", "LIST3", "LIST_MUST3", "LIST_TAIL3", "REMATCH3", "PAD3", "PARTIAL3", "STAR_PARTIAL3", "UNTIL3"
 #define REP_OPS "REP0", "REP1", "REP2", "REP3", "REP2_2", "REP_MIN0", "REP_MIN1", "REP_MIN2", "REP_MIN2_2", "REP_MAX0", "REP_MAX1", "REP_MAX2", "REP_OPT1", "REP_OPT2", "REP_OPT2_2", "RMM00", "RMM01", "RMM02", "RMM11", "RMM12", "RMM22", "RMM12_2"
 #define EXC_OPS "TC_RF", "TC_ANY_RF", "TC_STD_RF", "TC_TYPE_RF", "TC_RN", "TC_ANY_RN", "TC_STD_RN", "TC_TYPE_RN", "TC_RF2"
-#define META_OPS "ENABLE", "DISABLE", "STATE", "ACTION_ALT", "CONTROL_ALT", "RAW1", "SEPARATED_SEQ", "IF_THEN_ELSE_THEN", "IF_THEN"
+#define META_OPS "ENABLE", "DISABLE", "STATE", "ACTION_ALT", "CONTROL_ALT", "RAW1", "CUSTOM_ANY", "SEPARATED_SEQ", "IF_THEN_ELSE_THEN", "IF_THEN"
 #define FILLERS "ONE_A", "OPT_ONE_A", "AT_ONE_A", "FAILURE", "EOF_"
 #define FILLERS_SMALL "ONE_A", "OPT_ONE_A"
 
@@ -53,9 +53,9 @@ int main( int argc, char** argv )
       fams.push_back( { "every_operator_over_itself_and_fillers", { CORE_OPS, CORE_OPS3, CONV_OPS, CONV_OPS3, REP_OPS, EXC_OPS, META_OPS }, { "ONE_A", "OPT_ONE_A", "AT_ONE_A" }, 3, false } );
    // (ii) indirect recursion: operator over operator (unary/binary menu), fillers as leaves
    if( thorough )
-      fams.push_back( { "indirect_recursion_through_operator_pairs", { CORE_OPS, CONV_OPS, "REP2", "REP_MIN1", "RMM12", "REP_OPT2", "TC_RF", "TC_RN", "ENABLE", "STATE", "ACTION_ALT", "RAW1" }, { FILLERS_SMALL, CORE_OPS, CONV_OPS, "REP2", "REP_MIN1", "RMM12", "REP_OPT2", "TC_RF", "TC_RN", "ENABLE", "STATE", "ACTION_ALT", "RAW1" }, 3, false } );
+      fams.push_back( { "indirect_recursion_through_operator_pairs", { CORE_OPS, CONV_OPS, "REP2", "REP_MIN1", "RMM12", "REP_OPT2", "TC_RF", "TC_RN", "ENABLE", "STATE", "ACTION_ALT", "RAW1", "CUSTOM_ANY" }, { FILLERS_SMALL, CORE_OPS, CONV_OPS, "REP2", "REP_MIN1", "RMM12", "REP_OPT2", "TC_RF", "TC_RN", "ENABLE", "STATE", "ACTION_ALT", "RAW1", "CUSTOM_ANY" }, 3, false } );
    else
-      fams.push_back( { "indirect_recursion_through_classical_operators", { "SEQ", "SOR", "STAR", "OPT", "IF_THEN_ELSE", "REMATCH" }, { FILLERS_SMALL, "SEQ", "SOR", "OPT", "AT" }, 3, false } );
+      fams.push_back( { "indirect_recursion_through_classical_operators", { "SEQ", "SOR", "STAR", "OPT", "IF_THEN_ELSE", "REMATCH", "CUSTOM_ANY" }, { FILLERS_SMALL, "SEQ", "SOR", "OPT", "AT", "NOT_AT", "CUSTOM_ANY" }, 3, false } );
 
    const std::string sigma = "ab[";
    std::vector< std::string > inputs;
